@@ -3,7 +3,7 @@ From Coq Require Import List ZArith Lia Bool.
 Import ListNotations.
 Local Open Scope Z_scope.
 
-Definition byte := Z.
+Notation byte := Z (only parsing).
 
 Definition is_byte (b : Z) : bool := (0 <=? b) && (b <? 256).
 
